@@ -418,8 +418,8 @@ def tasks(tier, seed):
         t.append(('hyp_mutations', dict(n=300 if not full else 4000)))
     for i in range(3 if not full else 8):
         t.append(('hyp_files', dict(n=150 if not full else 1500)))
-    for i in range(1 if not full else 4):
-        t.append(('hyp_cli', dict(n=40 if not full else 300)))
+    for i in range(3 if not full else 4):
+        t.append(('hyp_cli', dict(n=60 if not full else 300)))
     if full:
         from props import c07_fuzz
         t += c07_fuzz.tasks(seed)
